@@ -39,6 +39,9 @@ RULE = ("stream cases = random selection under the subscription field (depth<=2:
         "spellings as mergeable duplicates, split selections, fragments, skipped siblings; plus a bounded-exhaustive block over all failure patterns of 3 events x 2 failing fields. "
         "distinct non-trivial = distinct canonical case with >=2 events or a refusal")
 ASSUMPTIONS = [
+    "the source returned by a subscription resolver is an ASYNC iterable (SubscriptionRuntime.map_stream / AsyncMap are typed for async "
+    "iterators); a synchronous iterable or generator as source (AttributeError after the resolver ran) is outside the statement's "
+    "'source event stream' (hunt3 C17/4, recorded as known finding A1)",
     "`subscription { __typename }` VALIDATES on every schema (June 2018 rule 5.2.3.1 only counts the collected root fields; the 2021 "
     "edition forbids introspection fields at the subscription root, June 2018 does not) and is then REFUSED by subscribe() with the "
     "documented RuntimeError ('Subscription field __typename should provide a subscription resolver'), before anything is called or "
@@ -607,6 +610,8 @@ def schemas(mode):
         if ps in root.get("abort", ()):
             from py_gql.exc import ExecutionError
             raise ExecutionError("fail@%d abort %s" % (root["id"], ps))      # aborts THIS event: its result is data null + this error
+        if ps in root.get("stop", ()):
+            raise StopAsyncIteration()      # e.g. an exhausted inner iterator: an error of THIS event, not the end of the stream
         if ps in root.get("crash", ()):
             raise ValueError("crash@%d %s" % (root["id"], ps))      # an UNEXPECTED exception: aborts the processing of this event
         if ps in root["fail"]:
@@ -852,6 +857,16 @@ def run_real(case, scale=1):
         else:
             rt = AsyncIORuntime(loop=loop, execute_blocking_functions_in_thread=bool(case["threads"]))
 
+        from py_gql.execution import Instrumentation
+
+        class StageRec(Instrumentation):
+            def on_execution_start(self):
+                out["exec_hooks"].append("+")
+
+            def on_execution_end(self):
+                out["exec_hooks"].append("-")
+        out["exec_hooks"] = []
+        stage_rec = StageRec()
         results = []
         swap = case.get("swap")
         swapped = [None]
@@ -862,7 +877,8 @@ def run_real(case, scale=1):
 
         async def body():
             try:
-                aw = subscribe(sub_schema, doc, context_value=ctx, runtime=rt, operation_name=opname, variables=variables)
+                aw = subscribe(sub_schema, doc, context_value=ctx, runtime=rt, operation_name=opname, variables=variables,
+                               instrumentation=stage_rec)
                 stream = (await aw) if asyncio.iscoroutine(aw) or asyncio.isfuture(aw) else aw
             except Exception as e:  # noqa  (classified by the caller)
                 out["refused"] = type(e).__name__
@@ -891,6 +907,10 @@ def run_real(case, scale=1):
                         res = await it.__anext__()
                     except StopAsyncIteration:
                         break
+                    except RuntimeError as e:        # StopAsyncIteration raised while processing an event, converted (PEP 479 style)
+                        if not isinstance(e.__cause__, StopAsyncIteration):
+                            raise
+                        res = Raised("error-of-this-event")
                     except ValueError as e:          # the unexpected exception of a crashing event: the consumer keeps reading
                         if not str(e).startswith("crash@"):
                             raise
@@ -988,6 +1008,9 @@ def expected_results(case):
         try:
             try:
                 res = graphql_blocking(twin, qtext, root=copy.deepcopy(ev), variables=request_extras(case)[1])
+            except StopAsyncIteration:
+                out.append(Raised("error-of-this-event"))
+                continue
             except ValueError as e:
                 if not str(e).startswith("crash@"):
                     raise
@@ -1003,6 +1026,10 @@ def expected_results(case):
 # ---------------------------------------------------------------------------------------------
 def oracle(case, real):
     bad = []
+    hooks = real.get("exec_hooks")
+    if hooks is not None and not real["err"] and hooks not in ([], ["+", "-"]):
+        return [("subscribe-execution-stage-unpaired:%s" % (case["refusal"] or "stream"),
+                 "subscribe() fired the execution hooks %r: a started execution stage must be ended, also when the subscription is refused" % hooks)]
     if real["err"] and real["err"].startswith("infra"):
         return []           # a bound that only keeps the check from blocking forever: an infrastructure note, never a verdict
     if real["err"]:
@@ -1183,7 +1210,7 @@ def canon_model_result(resp, sort_errors):
 def compare(case, real, ans):
     if real["err"]:
         return None
-    if any(is_event(e) and (e.get("crash") or e.get("abort")) for e in case["events"]):
+    if any(is_event(e) and (e.get("crash") or e.get("abort") or e.get("stop")) for e in case["events"]):
         return None         # an event whose processing raises an unexpected exception has no result: outside the model
     if "refused" not in ans:
         return ("corr:model-error", "model returned %r" % (ans,))
@@ -1380,6 +1407,14 @@ def exhaustive_cases():
                 evs[k]["abort"] = [pathk]
                 out.append({"kind": "stream", "refusal": None, "async_sub": bool(k % 2), "source": SOURCES[k % len(SOURCES)], "threads": False,
                             "sel": copy.deepcopy(sel), "delays": [0] * 4, "drive": drive, "events": evs})
+    # a resolver raises StopAsyncIteration while event k is processed: an error of event k, the stream must go on to the source's end
+    for nev in (3, 4):
+        for k in range(nev):
+            for pathk in ("root/x", "root/y/z"):
+                evs = [{"id": i, "val": 10 + i, "fail": [], "null": [], "len": {}} for i in range(nev)]
+                evs[k]["stop"] = [pathk]
+                out.append({"kind": "stream", "refusal": None, "async_sub": bool(k % 2), "source": SOURCES[(k + nev) % len(SOURCES)],
+                            "threads": False, "sel": copy.deepcopy(sel), "delays": [0] * (nev + 1), "drive": "anext", "events": evs})
     # an UNEXPECTED exception while processing event c (its __anext__ raises), a sibling field of the same event fails LATER; the
     # consumer keeps reading: the results of the following events must not carry that late error
     csel = [{"k": "x", "f": "ad", "sel": []}, {"k": "y", "f": "badd", "sel": []}, {"k": "z", "f": "a", "sel": []}]
